@@ -195,14 +195,16 @@ Theorem C14_gc_count : forall tr s s',
   length (junk s') = (length (junk s) + length (filter del_failed tr))%nat.
 Proof. exact junk_count. Qed.
 Print Assumptions C14_gc_count.
-(* LOST RESPONSE of the index PUT (EPutLost: the registry stores the new index, the client sees
-   an error; ghost result RLost, seen by the caller as the plain error RErr).
+(* LOST RESPONSE of the index PUT / DELETE (EPutLost: the registry stores the new index, the
+   client sees an error; EDelLost: the registry deletes the old index, the client sees an error
+   - the index-delete error after a PUT, a plain error when the deletion WAS the update; ghost
+   result RLost, seen by the caller as the plain error RErr).
    C14_plain_error_no_effect: with a registry that answers truthfully, a call took effect iff
    it did NOT return a plain error.  C14_lost_response: in general, nil / index-delete error
    => took effect (no lost update, even with lost responses); a plain error => took effect iff
    the response of its batch's PUT was lost ("may or may not be included"). *)
 Theorem C14_plain_error_no_effect : forall sg r0 st0 tr s t r,
-  run sg (init r0 st0) tr = Some s -> forallb (fun e => negb (put_lost e)) tr = true ->
+  run sg (init r0 st0) tr = Some s -> forallb (fun e => negb (resp_lost e)) tr = true ->
   (pcs s t = Ret r \/ pcs s t = Done r) ->
   (In t (lin s) <-> seen r <> RErr).
 Proof. exact plain_error_no_effect. Qed.
@@ -370,6 +372,15 @@ Example lost_ex :
   | Some s => lin s = [0; 1]%nat /\ reg s = Some [dC; dA; dB] /\
               map (pcs s) [0; 1]%nat = [Done RLost; Done RLost] /\ map seen [RLost; RLost] = [RErr; RErr] /\
               junk s = [[dC]] /\ dangling s = 1%nat
+  | None => False
+  end.
+Proof. vm_compute. repeat split. Qed.
+
+(* the last referrer is removed: the update is the DELETE of the index; its response is lost *)
+Example lost_del_ex :
+  match run false (init (Some [dA]) [[dA]])
+          [EGet 0 (Remove dA); EAssign 0; ERecvMain 0; EPrepare 0 false; ECommit 0; EDelLost 0; EComplete 0; EDone 0]%nat with
+  | Some s => lin s = [0]%nat /\ reg s = None /\ store s = [] /\ map (pcs s) [0]%nat = [Done RLost]
   | None => False
   end.
 Proof. vm_compute. repeat split. Qed.
